@@ -128,4 +128,77 @@ func runC03(em *vEmitter, r *vRng) {
 		}
 		os.RemoveAll(root)
 	}
+	// the base directory itself is not an object an operation may create: a store whose base directory
+	// (or an ancestor) is missing - never existed, or vanished after start-up - stays missing, and no
+	// operation succeeds on it
+	for _, mode := range []string{"never-existed", "vanished", "ancestor-vanished"} {
+		root := vScratch("c03m")
+		ps := []vParam{{ID: 1, Time: 1, Memory: 8, Threads: 1, Length: 16}}
+		vol := filepath.Join(root, "vol", "auth")
+		base := filepath.Join(vol, "main")
+		os.MkdirAll(filepath.Join(root, "sibling"), 0700)
+		os.WriteFile(filepath.Join(root, "sibling", "eve.user"), []byte("decoy\n"), 0600)
+		if mode != "never-existed" {
+			os.MkdirAll(base, 0700)
+		} else {
+			os.MkdirAll(filepath.Join(root, "vol"), 0700)
+		}
+		cfg := filepath.Join(root, "store.yaml")
+		os.WriteFile(cfg, []byte(vYaml(base, 1, ps)), 0600)
+		d, err := NewDirFromConfig(cfg)
+		if err != nil {
+			panic(err)
+		}
+		if mode != "never-existed" {
+			if err := d.Init("root", "rootpw"); err != nil {
+				panic(err)
+			}
+		}
+		switch mode {
+		case "vanished":
+			os.RemoveAll(base)
+		case "ancestor-vanished":
+			os.RemoveAll(filepath.Join(root, "vol"))
+		}
+		before := treeDigest(root, "")
+		type res struct {
+			op string
+			ok bool
+		}
+		var rs []string
+		viol := ""
+		run := func(op string, f func() error) {
+			err := f()
+			rs = append(rs, fmt.Sprintf("%s=%v", op, err == nil))
+			after := treeDigest(root, "")
+			if dd := diffDigest(before, after); len(dd) > 0 && viol == "" {
+				viol = fmt.Sprintf("%s on a store whose base directory is missing (%s) created or changed file-system objects: %v", op, mode, dd)
+			}
+			if err == nil && viol == "" && op != "list" && op != "remove" {
+				viol = fmt.Sprintf("%s succeeded on a store whose base directory is missing (%s)", op, mode)
+			}
+		}
+		run("add", func() error { return d.AddUser("alice", "alicepw", false) })
+		run("add-admin", func() error { return d.AddUser("newroot", "pw", true) })
+		run("update", func() error { return d.UpdateUser("root", "newpw") })
+		run("set-admin", func() error { return d.SetAdmin("root", false) })
+		run("remove", func() error { d.RemoveUser("root"); return nil })
+		run("authenticate", func() error {
+			ok, _, _, _, err := d.Authenticate("root", "rootpw")
+			if !ok && err == nil {
+				err = fmt.Errorf("denied")
+			}
+			return err
+		})
+		run("init", func() error { return d.Init("root2", "pw") })
+		run("check", func() error { return d.Check() })
+		run("list", func() error { _, err := d.List(); return err })
+		c := vCase{Prop: "C03", Kind: "missing-base", Class: "missing-base/" + mode, Nontrivial: true,
+			Human: map[string]interface{}{"mode": mode, "results": rs}}
+		if viol != "" {
+			c.Violation = viol
+		}
+		em.emit(c)
+		os.RemoveAll(root)
+	}
 }
